@@ -43,6 +43,7 @@ type histProfile struct {
 	nonceOff                                   int  // 1 in n histories disables the nonce check
 	badDatr                                    bool // gateways sometimes report an unknown data-rate string
 	maxSubmit                                  int  // largest queued payload (0: up to 230, beyond some data rates' limit)
+	noRestart                                  bool // one server for the whole history
 	sameTs                                     bool // receptions with identical receive time (the inbox key): the later one is refused by the store
 }
 
@@ -73,6 +74,7 @@ type histRunner struct {
 	tags      map[string]int
 	badDatr   bool
 	sameTs    bool
+	hung      bool
 	lastValid map[int][]byte
 }
 
@@ -114,10 +116,10 @@ func (h *histRunner) rx(raw []byte, tag string) {
 		Gateway:    server.GatewayContext{GatewayEUI: eui64(gw), GatewayHost: "127.0.0.1", GatewayPort: 1700, GatewayClock: clock, ProtocolVersion: 2},
 		ReceivedAt: time.Unix(0, 1600000000000000000+h.ts),
 	}
-	h.w.inject(pkt)
-	if !h.w.quiesce() {
+	if !h.w.inject(pkt) || !h.w.quiesce() {
 		h.obs = append(h.obs, "HUNG")
 		h.events = append(h.events, fmt.Sprintf("R,%s,%x,%d,%s,%d/%d,%d,%d,,0", hx(raw), gw, h.ts, datr, rssi, snr8, ch, clock))
+		h.hung = true
 		return
 	}
 	downs, pubs, _ := h.w.collect()
@@ -436,8 +438,8 @@ func runHistory(rng *rand.Rand, prof histProfile, w *Writer, suite string) {
 	}
 	nev := prof.minEv + rng.Intn(prof.maxEv-prof.minEv+1)
 	total := prof.wUplink + prof.wCorrupt + prof.wJoin + prof.wSubmit + prof.wReplay + prof.wCrash
-	for e := 0; e < nev; e++ {
-		if rng.Intn(40) == 0 {
+	for e := 0; e < nev && !h.hung; e++ {
+		if !prof.noRestart && rng.Intn(40) == 0 {
 			h.restartServer()
 		}
 		di := rng.Intn(len(h.devs))
@@ -556,6 +558,11 @@ func runHistory(rng *rand.Rand, prof histProfile, w *Writer, suite string) {
 			}
 			h.rx(f, tag)
 		case r < prof.wUplink+prof.wCorrupt+prof.wReplay:
+			if prof.name == "C11" && rng.Intn(3) != 0 {
+				// bytes that are no frame at all: every length from one byte up, most of them undecodable
+				h.rx(randBytes(rng, 1+rng.Intn(40)), "uplink.garbage")
+				continue
+			}
 			if f, ok := h.lastValid[di]; ok {
 				h.rx(f, "uplink.replay")
 			} else {
@@ -621,6 +628,8 @@ var profiles = map[string]histProfile{
 	"C06": {maxSubmit: 59, name: "C06", wUplink: 8, wCorrupt: 2, wJoin: 1, wSubmit: 6, wReplay: 1, maxDevs: 4, minEv: 10, maxEv: 30, shareAddr: 6},
 	"C07": {badDatr: true, name: "C07", wUplink: 8, wCorrupt: 1, wJoin: 2, wSubmit: 3, wReplay: 1, maxDevs: 2, minEv: 10, maxEv: 30, confirmedOnly: true},
 	"C08": {maxSubmit: 59, name: "C08", wUplink: 9, wCorrupt: 1, wJoin: 0, wSubmit: 5, wReplay: 1, maxDevs: 3, minEv: 12, maxEv: 30},
+	// a long life of one server under mostly undecodable / unauthentic radio payloads, valid traffic in between
+	"C11": {noRestart: true, maxSubmit: 40, name: "C11", wUplink: 2, wCorrupt: 6, wJoin: 1, wSubmit: 1, wReplay: 9, maxDevs: 1, minEv: 320, maxEv: 380},
 	"C10": {maxSubmit: 40, name: "C10", wUplink: 5, wCorrupt: 0, wJoin: 1, wSubmit: 3, wReplay: 2, wCrash: 6, maxDevs: 1, minEv: 8, maxEv: 20},
 	"C09": {sameTs: true, name: "C09", wUplink: 8, wCorrupt: 2, wJoin: 1, wSubmit: 3, wReplay: 3, maxDevs: 2, minEv: 10, maxEv: 30},
 }
